@@ -21,6 +21,7 @@ import (
 	"fmt"
 	"net/http"
 	"net/url"
+	"sync"
 
 	"github.com/google/martian/v3"
 	"github.com/google/martian/v3/parse"
@@ -38,6 +39,8 @@ func init() {
 // Verifier verifies that the specific URL has been seen.
 type Verifier struct {
 	url *url.URL
+
+	mu  sync.Mutex
 	err error
 }
 
@@ -78,7 +81,9 @@ func (v *Verifier) ModifyRequest(req *http.Request) error {
 	case v.url.Path != "" && v.url.Path != u.Path:
 	case v.url.RawQuery != "" && v.url.RawQuery != u.RawQuery:
 	default:
+		v.mu.Lock()
 		v.err = nil
+		v.mu.Unlock()
 	}
 
 	return nil
@@ -86,11 +91,17 @@ func (v *Verifier) ModifyRequest(req *http.Request) error {
 
 // VerifyRequests returns an error if pingback never occurred.
 func (v *Verifier) VerifyRequests() error {
+	v.mu.Lock()
+	defer v.mu.Unlock()
+
 	return v.err
 }
 
 // ResetRequestVerifications clears the failed request verification.
 func (v *Verifier) ResetRequestVerifications() {
+	v.mu.Lock()
+	defer v.mu.Unlock()
+
 	v.err = fmt.Errorf(errFormat, v.url.String())
 }
 
